@@ -325,11 +325,13 @@ def k_member(run, case):
         Sh = np.eye(3)
         i, j = rng.choice(3, size=2, replace=False)
         Sh[i, j] = d
-        run.check(not L.is_so3(R @ Sh), "is_so3 rejects shear", case,
+        # (the skew on either side of the rotation: columns or rows keep unit length)
+        RS = R @ Sh if rng.random() < .5 else Sh @ R
+        run.check(not L.is_so3(RS), "is_so3 rejects shear", case,
                   "is_so3 accepted a block sheared by %g" % d, R=R)
-        run.check(not L.is_se3(rm.se3(R @ Sh, t)), "is_se3 rejects shear", case,
+        run.check(not L.is_se3(rm.se3(RS, t)), "is_se3 rejects shear", case,
                   "is_se3 accepted a sheared block (%g)" % d, R=R)
-        run.check(not L.is_sim3(rm.se3(R @ Sh, t)), "is_sim3 rejects shear", case,
+        run.check(not L.is_sim3(rm.se3(RS, t)), "is_sim3 rejects shear", case,
                   "is_sim3 accepted a sheared block (%g)" % d, R=R)
         # non-uniformly scaled block
         D = np.eye(3)
@@ -339,7 +341,12 @@ def k_member(run, case):
         # wrong bottom rows: any non-zero perturbation
         Pb = P.copy()
         col = rng.integers(4)
-        Pb[3, col] += (10.0**rng.uniform(-12, 0)) * (1 if rng.random() < .5 else -1)
+        e = (10.0**rng.uniform(-12, 1)) * (1 if rng.random() < .5 else -1)
+        if rng.random() < .5:
+            Pb[3, col] += e
+        else:
+            # several wrong entries at once, also ones that cancel in a sum or a product
+            Pb[3, :3] = [[e, -e, 0.0], [e, e, -2 * e], [0.0, e, -e], [-e, 0.0, e], [e, e, e]][rng.integers(5)]
         run.check(not L.is_se3(Pb), "is_se3 rejects bottom row", case,
                   "is_se3 accepted a wrong bottom row", Pb=Pb)
         run.check(not L.is_sim3(Pb), "is_sim3 rejects bottom row", case,
